@@ -193,10 +193,12 @@ fn call_one(w: &Value, sink: &mut dyn FnMut(Value)) -> bool {
     if hooks {
         yamaquasi::verif::start();
     }
+    let t0 = std::time::Instant::now();
     let r = guard_deadline(deadline, move || {
         let prefs = pref.build();
         factor(n, a, &prefs).map_err(|_| ())
     });
+    let ms = t0.elapsed().as_millis() as u64;
     let timed_out = matches!(&r, Err(v) if v["outcome"] == "timeout");
     if hooks {
         for raw in yamaquasi::verif::stop() {
@@ -205,7 +207,9 @@ fn call_one(w: &Value, sink: &mut dyn FnMut(Value)) -> bool {
             }
         }
     }
-    sink(ret_event(&id, &alg, n.bits(), r));
+    let mut e = ret_event(&id, &alg, n.bits(), r);
+    e["ms"] = json!(ms); // informational only (never judged)
+    sink(e);
     timed_out
 }
 
@@ -687,10 +691,16 @@ fn make_limit(rng: &mut StdRng, cache: &mut BigCache, shape: &str, bits: u32) ->
             }
         }
         "bigprime" => cache.prime(rng, bits),
-        "over_random" => rand_bits(rng, bits) | Uint::ONE,
+        // above the limit *after* trial division: no prime factor below 200
+        "over_random" => loop {
+            let n = rand_bits(rng, bits) | Uint::ONE;
+            if SMALLS.iter().all(|&p| !(n % Uint::from(p)).is_zero()) {
+                return n;
+            }
+        },
         "over_qP" => loop {
             let n = (rand_bits(rng, bits - 30) | Uint::ONE) * Uint::from(smooth_prime(rng, 30));
-            if n.bits() > 512 {
+            if n.bits() > 512 && SMALLS.iter().all(|&p| !(n % Uint::from(p)).is_zero()) {
                 return n;
             }
         },
@@ -771,6 +781,17 @@ pub fn list_works(prefix: &str, alg: &str, ns: &[u64], chunk: usize, deadline: f
 
 /// common entry point of the c01 / c02 / c03 drivers
 pub fn run_prop(args: &Args, prop: &str) -> i32 {
+    // a panic here is a bug of the driver itself (the code under test only runs in child processes, guarded)
+    match guard(|| run_prop_inner(args, prop)) {
+        Ok(c) => c,
+        Err(v) => {
+            eprintln!("driver error: {}", v);
+            3
+        }
+    }
+}
+
+fn run_prop_inner(args: &Args, prop: &str) -> i32 {
     if args.contains_key("child") {
         return run_child(args);
     }
@@ -781,11 +802,11 @@ pub fn run_prop(args: &Args, prop: &str) -> i32 {
     let out_path = arg_str(args, "out", "trace.ndjson").to_string();
     let shapes = read_ndjson(arg_str(args, "shapes", "shapes.ndjson"));
     let reps = arg_u64(args, "reps", if thorough { 3 } else { 1 });
-    let deadline = if thorough { 1200.0 } else { 240.0 };
+    let deadline = if thorough { 1200.0 } else { 100.0 };
     let only = args.get("only").cloned(); // replay: a single case id
     let mut pool = Pool::new(seed);
     let mut works = works_from_shapes(&shapes, seed, &driver, reps, &mut pool, deadline);
-    let sd = 120.0;
+    let sd = 60.0;
     match prop {
         "C01" => {
             works.extend(sweep_works("s", "auto", 0, if thorough { 1 << 18 } else { 1 << 16 }, 2048, sd));
